@@ -1036,6 +1036,9 @@ func (r *rewriter) selectStmt(x *ast.SelectStmt) ast.Stmt {
 	callArgs := append([]ast.Expr{ast.NewIdent(hasDefault)}, cases...)
 	init := &ast.AssignStmt{Lhs: []ast.Expr{idx, val, okv}, Tok: token.DEFINE, Rhs: []ast.Expr{&ast.CallExpr{Fun: sel("vsched", "Select"), Args: callArgs}}}
 	use := &ast.AssignStmt{Lhs: []ast.Expr{ast.NewIdent("_"), ast.NewIdent("_")}, Tok: token.ASSIGN, Rhs: []ast.Expr{val, okv}}
+	// a select whose clauses all end in terminating statements is itself terminating; the switch it becomes
+	// needs a default clause to be one too (it is never taken: Select returns -1 or a case index)
+	clauses = append(clauses, &ast.CaseClause{Body: []ast.Stmt{&ast.ExprStmt{X: &ast.CallExpr{Fun: ast.NewIdent("panic"), Args: []ast.Expr{&ast.BasicLit{Kind: token.STRING, Value: `"vsched: select returned an index without a clause"`}}}}}})
 	sw := &ast.SwitchStmt{Tag: idx, Body: &ast.BlockStmt{List: clauses}}
 	return &ast.BlockStmt{List: []ast.Stmt{init, use, sw}}
 }
